@@ -55,59 +55,24 @@ run_one(const hx_spec *sp, hx_job *j, const ga_obj **fobj, long *foff)
         return st;
 }
 
-int
-drv_sweep(int argc, char **argv)
+static long njobs, nfault;
+static const char *variant_name;
+
+static void
+exec_spec(const char *kind, const hx_spec *spp)
 {
-        const char *out = NULL, *variant = "sse_t1", *kinds = NULL;
-        int n = 200;
-        uint64_t seed = 1;
-        for (int i = 0; i < argc; i++) {
-                if (!strcmp(argv[i], "--out"))
-                        out = argv[++i];
-                else if (!strcmp(argv[i], "--variant"))
-                        variant = argv[++i];
-                else if (!strcmp(argv[i], "--kinds"))
-                        kinds = argv[++i];
-                else if (!strcmp(argv[i], "--n"))
-                        n = atoi(argv[++i]);
-                else if (!strcmp(argv[i], "--seed"))
-                        seed = strtoull(argv[++i], NULL, 0);
-        }
-        hx_trace = out ? fopen(out, "w") : stdout;
-        V = hx_variant_by_name(variant);
-        M = V ? hx_mgr_new(V) : NULL;
-        if (!M) {
-                fprintf(stderr, "variant unavailable\n");
-                return 2;
-        }
-        const char *klist[256];
-        int nk = 0;
-        char kb[4096];
-        if (kinds) {
-                snprintf(kb, sizeof(kb), "%s", kinds);
-                for (char *p = strtok(kb, ","); p && nk < 256; p = strtok(NULL, ","))
-                        klist[nk++] = p;
-        } else
-                for (int i = 0; i < hx_nkinds; i++)
-                        klist[nk++] = hx_kinds[i];
-        hx_rng g;
-        hx_seed(&g, seed);
-        long njobs = 0, nfault = 0;
-        for (int k = 0; k < nk; k++) {
-                for (int it = 0; it < n; it++) {
-                        hx_spec sp;
-                        if (!hx_spec_from_kind(klist[k], &g, &sp)) {
-                                fprintf(stderr, "unknown kind %s\n", klist[k]);
-                                return 2;
-                        }
+        hx_spec sp = *spp;
+        uint64_t abi0 = hx_abi_viol_bits;
+        int abin0 = hx_abi_viol_total;
+        hx_abi_viol_bits = 0;
                         hx_job a, b;
                         const ga_obj *fo = NULL;
                         long foff = 0;
                         int st = run_one(&sp, &a, &fo, &foff);
                         njobs++;
                         tr_begin("Job");
-                        tr_str("variant", variant);
-                        tr_str("kind", klist[k]);
+                        tr_str("variant", variant_name);
+                        tr_str("kind", kind);
                         tr_int("len", sp.len);
                         tr_int("hlen", sp.hlen);
                         tr_int("coff", sp.coff);
@@ -118,7 +83,9 @@ drv_sweep(int argc, char **argv)
                         tr_int("bitadj", sp.bitadj);
                         tr_int("inplace", sp.inplace);
                         tr_int("place", sp.placement);
-                        tr_int("seedlo", (long long) (sp.seed & 0x7fffffff));
+                        tr_int("seedlo", (long long) (sp.seed & 0xffffff));
+                        tr_int("seedmid", (long long) ((sp.seed >> 24) & 0xffffff));
+                        tr_int("seedhi", (long long) (sp.seed >> 48));
                         tr_int("st", st);
                         if (st < 0 && st > -100) {
                                 nfault++;
@@ -148,13 +115,151 @@ drv_sweep(int argc, char **argv)
                                         hx_job_free(&b);
                                 }
                         }
+                        tr_int("abi", (long long) hx_abi_viol_bits);
+                        hx_abi_viol_bits |= abi0;
+                        (void) abin0;
                         tr_end();
                         hx_job_free(&a);
                         ga_reset();
+}
+
+static long jint(const char *line, const char *key);
+static void replay_file(const char *path);
+
+int
+drv_sweep(int argc, char **argv)
+{
+        const char *out = NULL, *variant = "sse_t1", *kinds = NULL, *replay = NULL;
+        int n = 200, dense = 0;
+        uint64_t seed = 1;
+        for (int i = 0; i < argc; i++) {
+                if (!strcmp(argv[i], "--out"))
+                        out = argv[++i];
+                else if (!strcmp(argv[i], "--variant"))
+                        variant = argv[++i];
+                else if (!strcmp(argv[i], "--kinds"))
+                        kinds = argv[++i];
+                else if (!strcmp(argv[i], "--n"))
+                        n = atoi(argv[++i]);
+                else if (!strcmp(argv[i], "--replay"))
+                        replay = argv[++i];
+                else if (!strcmp(argv[i], "--dense"))
+                        dense = atoi(argv[++i]);
+                else if (!strcmp(argv[i], "--seed"))
+                        seed = strtoull(argv[++i], NULL, 0);
+        }
+        hx_trace = out ? fopen(out, "w") : stdout;
+        if (replay) {
+                replay_file(replay);
+                fclose(hx_trace);
+                fprintf(stderr, "{\"jobs\":%ld,\"faults\":%ld,\"abi_viol\":%d}\n", njobs, nfault,
+                        hx_abi_viol_total);
+                return 0;
+        }
+        V = hx_variant_by_name(variant);
+        variant_name = variant;
+        M = V ? hx_mgr_new(V) : NULL;
+        if (!M) {
+                fprintf(stderr, "variant unavailable\n");
+                return 2;
+        }
+        const char *klist[256];
+        int nk = 0;
+        char kb[4096];
+        if (kinds) {
+                snprintf(kb, sizeof(kb), "%s", kinds);
+                for (char *p = strtok(kb, ","); p && nk < 256; p = strtok(NULL, ","))
+                        klist[nk++] = p;
+        } else
+                for (int i = 0; i < hx_nkinds; i++)
+                        klist[nk++] = hx_kinds[i];
+        hx_rng g;
+        hx_seed(&g, seed);
+        for (int k = 0; k < nk; k++) {
+                for (int it = 0; it < n + dense; it++) {
+                        hx_spec sp;
+                        /* the first `dense` iterations walk message length 0..dense-1 */
+                        hx_force_len = it < dense ? it : -1;
+                        if (!hx_spec_from_kind(klist[k], &g, &sp)) {
+                                fprintf(stderr, "unknown kind %s\n", klist[k]);
+                                return 2;
+                        }
+                        exec_spec(klist[k], &sp);
                 }
         }
         fclose(hx_trace);
         fprintf(stderr, "{\"jobs\":%ld,\"faults\":%ld,\"abi_viol\":%d}\n", njobs, nfault,
                 hx_abi_viol_total);
         return 0;
+}
+
+static long
+jint(const char *line, const char *key)
+{
+        char pat[64];
+        snprintf(pat, sizeof(pat), "\"%s\":", key);
+        const char *p = strstr(line, pat);
+        return p ? strtol(p + strlen(pat), NULL, 10) : 0;
+}
+
+static void
+jstr(const char *line, const char *key, char *out, size_t n)
+{
+        char pat[64];
+        snprintf(pat, sizeof(pat), "\"%s\":\"", key);
+        const char *p = strstr(line, pat);
+        out[0] = 0;
+        if (!p)
+                return;
+        p += strlen(pat);
+        size_t i = 0;
+        while (*p && *p != '"' && i + 1 < n)
+                out[i++] = *p++;
+        out[i] = 0;
+}
+
+/* re-execute every Job event of a recorded sweep file from its logged parameters */
+static void
+replay_file(const char *path)
+{
+        FILE *f = fopen(path, "r");
+        static char line[1 << 16];
+        char kind[64], var[32], cur[32] = "";
+        if (!f)
+                return;
+        while (fgets(line, sizeof(line), f)) {
+                if (!strstr(line, "\"e\":\"Job\""))
+                        continue;
+                jstr(line, "kind", kind, sizeof(kind));
+                jstr(line, "variant", var, sizeof(var));
+                if (strcmp(var, cur) != 0) {
+                        if (M)
+                                free_mb_mgr(M);
+                        V = hx_variant_by_name(var);
+                        M = V ? hx_mgr_new(V) : NULL;
+                        snprintf(cur, sizeof(cur), "%s", var);
+                        variant_name = cur;
+                        if (!M)
+                                continue;
+                }
+                hx_rng g;
+                hx_seed(&g, 1);
+                hx_spec sp;
+                if (!hx_spec_from_kind(kind, &g, &sp))
+                        continue;
+                sp.len = (uint32_t) jint(line, "len");
+                sp.hlen = (uint32_t) jint(line, "hlen");
+                sp.coff = (uint32_t) jint(line, "coff");
+                sp.hoff = (uint32_t) jint(line, "hoff");
+                sp.taglen = (uint32_t) jint(line, "taglen");
+                sp.aadlen = (uint32_t) jint(line, "aadlen");
+                sp.ivlen = (uint32_t) jint(line, "ivlen");
+                sp.bitadj = (uint32_t) jint(line, "bitadj");
+                sp.inplace = (int) jint(line, "inplace");
+                sp.placement = (int) jint(line, "place");
+                sp.seed = (uint64_t) jint(line, "seedlo") | ((uint64_t) jint(line, "seedmid") << 24) |
+                          ((uint64_t) jint(line, "seedhi") << 48);
+                exec_spec(kind, &sp);
+        }
+        fclose(f);
 }
